@@ -182,6 +182,13 @@ class CallMixin:
         if attr == "__class__":
             return sv.SPy("dynclass", ref)
         ci = self.class_of_ref(ref)
+        for h in self.hooks.get("getattr_ref", ()):
+            r = h(self, ref, attr, path, node)
+            if r is not None:
+                return r
+        if ci is not None and not ref.exact and ci.name in getattr(self.registry, "closed_classes", ()):
+            # classes declared closed (no user subclasses, stated assumption): dispatch is static
+            ref = sv.SRef(ref.e, ci.name, True)
         if ref.exact and ci is not None:
             fi = self.repo.lookup_method(ci, attr)
             if fi is not None:
@@ -274,10 +281,12 @@ class CallMixin:
 
     def setattr(self, base, attr, v, path, node):
         if isinstance(base, sv.SUnion):
-            raise Unsupported("attribute assignment on a value that may be None", node)
+            base = self.expect(base, sv.SRef, path, node, what="none")
         if not isinstance(base, sv.SRef):
             raise Unsupported(f"attribute assignment on {base}", node)
         ci = self.class_of_ref(base)
+        if ci is not None and not base.exact and ci.name in getattr(self.registry, "closed_classes", ()):
+            base = sv.SRef(base.e, ci.name, True)
         if base.exact and ci is not None:
             st = self.repo.lookup_setter(ci, attr)
             if st is not None:
@@ -326,7 +335,7 @@ class CallMixin:
         if c is None or c.modifies is None:
             return []
         ctx = Ctx(self, path, self.cur_args).old
-        return [m for m in c.modifies(ctx) if m[0] != "arg"]
+        return [m for m in c.modifies(ctx) if not (isinstance(m[0], str) and m[0] == "arg")]
 
     # ------------------------------------------------------------------ calls
     def _e_Call(self, e, path):
@@ -461,7 +470,7 @@ class CallMixin:
         for k, v in kwargs.items():
             if k in names:
                 m[k] = v
-            elif a.kwarg:
+            elif a.kwarg or k == "$kwargs":
                 extra[k] = v
             else:
                 raise Unsupported(f"unexpected keyword {k} for {fi.qual}", node)
@@ -565,7 +574,7 @@ class CallMixin:
 
         def havoc():
             for r, f in mods:
-                if r == "arg":
+                if isinstance(r, str) and r == "arg":
                     ty = c.params.get(f)
                     if isinstance(ty, sv.TOpt):
                         ty = ty.t
